@@ -9,20 +9,9 @@ namespace K
 variable {α : Type} [Add α] [Sub α] [Mul α] [Div α] [Neg α] [LT α] [LE α]
   [DecidableLT α] [DecidableLE α] [OfScientific α] [KOps α]
 
-/-- mirrors: sound.rs::PlaybackState (discriminants 0..6 in this order) -/
-inductive PlaybackState where
-  | playing | pausing | paused | waitingToResume | resuming | stopping | stopped
-deriving DecidableEq, Repr
-
-/-- mirrors: sound.rs::PlaybackState::is_advancing -/
-def PlaybackState.isAdvancing : PlaybackState → Bool
-  | .playing => true
-  | .pausing => true
-  | .paused => false
-  | .waitingToResume => false
-  | .resuming => true
-  | .stopping => true
-  | .stopped => false
+/-- mirrors: sound.rs::PlaybackState::is_advancing — generated (GenFn.lean) -/
+def PlaybackState.isAdvancing (s : PlaybackState) : Bool := gen_body% Gen.playbackStateIsAdvancing s
+gen_alias Gen.playbackStateIsAdvancing => PlaybackState.isAdvancing
 
 /-- `state as u8` -/
 def PlaybackState.toNat : PlaybackState → Nat
